@@ -313,6 +313,15 @@ def slim(rec):
 # function level
 
 
+def refine_miss(E, rec, obs_alts, miss):
+    """A failing reference must stay allele 0 (masked).  When it is removed from the allele list instead, the first retained
+    ALT takes its place and vanishes from ALT: name that mechanism rather than a generic predicate failure."""
+    if E.ref_failed and E.alts and len(miss) == 1 and miss[0][0] == K_PRED and obs_alts == E.alts[1:]:
+        return [("failing-reference-dropped-instead-of-masked", "the reference fails the predicate and the first retained ALT %s is missing from the allele list, "
+                 "as if the reference had been removed and that ALT had taken its place: %s" % (E.alts[0], miss[0][1]))]
+    return miss
+
+
 def fn_check(rec, tag, filt, locus, exc, col):
     """Compare one from_variant_record outcome with the oracle.  Returns list of (mechanism, message)."""
     E = Expect(rec, tag, filt)
@@ -370,7 +379,7 @@ def fn_check(rec, tag, filt, locus, exc, col):
         else:
             miss.append(("reference-mask-wrong", "mask_reference_allele=%s, demanded %s (%s)" % (obs_mask, E.mask, what)))
     if miss:
-        return found + miss[:2]
+        return found + refine_miss(E, rec, obs_alts, miss)[:2]
     if [a for a in rec["alts"] if a in obs_alts] != obs_alts:
         return found + [("retained-alt-order-changed", "alts %s, input order %s (%s)" % (obs_alts, E.alts, what))]
     if E.ref_failed:
@@ -656,7 +665,7 @@ def check_record(prog, rec, E, out, header, tag, filt, col):
             miss.append(("reference-mask-wrong", "REFMASKED %s, demanded %s (%s)" % (obs_mask, E.mask, what)))
     if miss:
         col.count("cli_records_misfiltered")
-        return miss[:2]
+        return refine_miss(E, rec, obs_alts, miss)[:2]
     if [a for a in rec["alts"] if a in obs_alts] != obs_alts:
         return [("retained-alt-order-changed", "output ALT %s, input order %s (%s)" % (obs_alts, E.alts, what))]
     if E.mask:
